@@ -91,6 +91,26 @@ def main():
     ck.family("handicap_lines_arrival_fills", len(hscs), len(hscs), [], sorted({i for i, _ in hbad}), dist={"orders": sum(len(x["_exp"]) for x in hscs), "lines_per_market": 5})
     for i, why in hbad[:2]:
         ck.fail("C05-own-line", "handicap market: " + why, {"scenario": {k: v for k, v in hscs[i].items() if not k.startswith("_")}})
+    # config.simulation_available_prices = True (resting orders also filled from the current book; not in the Coq model): implementation and
+    # independent bound only - an update cannot give an order more than its book offers at the limit or better plus what it reports traded
+    ascs = []
+    for _ in range(120 if thorough else 40):
+        a = simgen.gen_scenario(rng, {"kinds": ["L"], "p_fok": 0.0, "no_remove": True, "p_remove": 0.0, "p_manage": 0.1, "p_place": 0.6, "p_trade": 0.5,
+                                      "p_susp": 0.0, "p_inplay": 0.0, "nstrats": [1], "nmarkets": [1], "min_upd": 8, "max_upd": 14, "p_full": 0.0})
+        a["config"]["available_prices"] = True
+        ascs.append(a)
+    aouts = run_impl_parallel("simlib", [{"scenarios": [simgen.to_impl(x) for x in ch], "observe": "all"} for ch in chunked(ascs, 10)], timeout=1800)
+    aimpl = [r for o in aouts for r in o["out"]]
+    abad, nfill = [], 0
+    for i, (sc, io) in enumerate(zip(ascs, aimpl)):
+        if io.get("error"):
+            abad.append((i, "C05-availability", "the run aborted: %s" % str(io["error"])[:120], {})); continue
+        nfill += sum(1 for o in io["final"] for f in o["frags"] if f[0] and f[0] > (o.get("placed") or 0))
+        for key, why, det in propcheck.c05_available(sc, io)[:1]:
+            abad.append((i, key, why, det))
+    ck.family("available_prices_mode_bound_per_update", len(ascs), len(ascs), [], sorted({i for i, _, _, _ in abad}), dist={"fills_after_placement": nfill})
+    for i, key, why, det in abad[:2]:
+        ck.fail(key, "simulation_available_prices: " + why, dict(det, scenario=ascs[i], how="harness/impl/simlib.py with config.available_prices"))
     return ck.finish("scenarios on the real FlumineSimulation (books with 1-3 levels per side, gaps, empty sides; limit prices through/at/behind the best; sizes around what is offered; FILL_OR_KILL with min fill absent/below/equal/above the size; best-price execution on/off; full-match clients) compared observation by observation with the Coq model (both tie-breaks); independent Python checker of the property on the implementation's fragments; distinct = distinct scripts with fills or >2 packages")
 
 
